@@ -476,7 +476,7 @@ class Submitter:
 
         self.log("Saving data for future runs...\n")
         try:
-            pickle.dump(savedata, open(self._pklname, "w"))
+            pickle.dump(savedata, open(self._pklname, "wb"))
         except OSError:
             self.log("Saving failed\n")
 
@@ -486,7 +486,7 @@ class Submitter:
 
         self.log("Loading data from past runs...\n")
         try:
-            loaddata = pickle.load(open(self._pklname))
+            loaddata = pickle.load(open(self._pklname, "rb"))
         except OSError:
             self.log("Loading failed\n")
             return
